@@ -16,6 +16,8 @@ Definition valid (c : case) : Prop :=
   parse (c_var c) (table_compile (c_table c)) (c_str c) = reference c /\
   no_raise (reference c) /\
   (lookup_escapes (c_var c) = false \/ table_clean (c_table c) = true) /\
+  (forall e, reference c = Ok e ->
+     eval_depth_limit (c_var c) = 0%nat \/ (depth e <= eval_depth_limit (c_var c))%nat) /\
   match c_expected c with
   | Some e => exists t w0 w3, ok 0 t /\ is_ws w0 /\ is_ws w3 /\ c_str c = w0 ++ print t ++ w3 /\ erase t = e /\
                               (forall a, In a (catoms t) -> table_compile (c_table c) a = COk)
@@ -24,7 +26,7 @@ Definition valid (c : case) : Prop :=
 
 Lemma valid_expected c e : valid c -> c_expected c = Some e -> reference c = Ok e.
 Proof.
-  intros (_ & _ & _ & H) E. rewrite E in H. destruct H as (t & w0 & w3 & Hok & Hw0 & Hw3 & Hs & He & Hc).
+  intros (_ & _ & _ & _ & H) E. rewrite E in H. destruct H as (t & w0 & w3 & Hok & Hw0 & Hw3 & Hs & He & Hc).
   unfold reference. rewrite Hs, <- He. now apply parse_print.
 Qed.
 
@@ -70,14 +72,14 @@ Qed.
 
 Lemma holds_model c : valid c -> holds c (run_model c) = [].
 Proof.
-  intros Hv0. pose proof (fun e => valid_expected c e Hv0) as He. destruct Hv0 as (Hp & Hr & Hc & _).
+  intros Hv0. pose proof (fun e => valid_expected c e Hv0) as He. destruct Hv0 as (Hp & Hr & Hc & Hd & _).
   rewrite run_model_eq, Hp. unfold holds, wanted. cbn [fst snd].
   rewrite vals_eqb_refl.
   destruct (reference c) as [e|x] eqn:Eref.
   - cbn [outcome].
-    assert (Hev : map (eval (c_var c) (table_truth (c_table c)) e) (seq 0 (c_envs c)) =
+    assert (Hev : map (eval_v (c_var c) (table_truth (c_table c)) e) (seq 0 (c_envs c)) =
                   map (eval documented (table_truth (c_table c)) e) (seq 0 (c_envs c))).
-    { apply map_ext. intros i. apply eval_ext. intros a _. unfold atom_val.
+    { apply map_ext. intros i. rewrite (eval_v_enough _ _ _ _ (Hd e eq_refl)). apply eval_ext. intros a _. unfold atom_val.
       destruct (tv_fault (table_truth (c_table c) a i)); [reflexivity|]. cbn [lookup_escapes documented andb].
       destruct Hc as [-> | Hc]; [reflexivity|]. now rewrite (table_clean_spec _ Hc), andb_false_r. }
     rewrite Hev, vals_eqb_refl.
@@ -97,7 +99,7 @@ Definition tv_of (v s : bool) : tv := {| tv_val := v; tv_through_scalar := s; tv
 Definition atom_big : atom := {| a_key := None; a_type := TRe; a_cs := true; a_pat := lit "a{4294967296}" |}.
 Definition witness_overflow : case :=
   {| c_str := lit "@id_re@a{4294967296}"; c_expected := None;
-     c_var := {| overflow_escapes := true; lookup_escapes := true; bare_keyword_atom := true |};
+     c_var := {| overflow_escapes := true; lookup_escapes := true; bare_keyword_atom := true; eval_depth_limit := 0 |};
      c_envs := 1; c_table := [(atom_big, (COverflow, [tv_of false false]))] |}.
 
 (* '@data_glob:a:b@*' on SmartLookupDict({"a": "x"}): documented value "not found" = empty = matches '*' *)
@@ -131,6 +133,7 @@ Definition example_cst : cst :=
 Lemma example_valid : valid example_case.
 Proof.
   split; [vm_compute; reflexivity|]. split; [vm_compute; exact I|]. split; [right; vm_compute; reflexivity|].
+  split; [intros e He; vm_compute in He; injection He as <-; right; apply Nat.leb_le; vm_compute; reflexivity|].
   cbn [c_expected example_case]. exists example_cst, [], [].
   split.
   { unfold example_cst, ok. cbn [okx lev andb]. unfold atom_okx, unquoted_ok. cbn.
